@@ -2,6 +2,5 @@ package main
 
 func runLemmas(p *Program, cx *Contracts, cfg *PropConfig) ([]*Obligation, []string) { return nil, nil }
 
-func runInventory(p *Program, cx *Contracts, cfg *PropConfig) []*Obligation { return nil }
 
 func runReplayAdapter(id string, o *Obligation, cfg *PropConfig) (string, bool) { return "", false }
